@@ -24,9 +24,9 @@ type Run struct {
 	Constants map[string]string // overrides written into a derived cfg (TLA+ syntax values)
 	Workers   int
 	Timeout   time.Duration
-	Simulate  string   // e.g. "num=100" ; empty = model checking
-	Depth     int      // simulation depth
-	Seed      int64    // simulation seed
+	Simulate  string // e.g. "num=100" ; empty = model checking
+	Depth     int    // simulation depth
+	Seed      int64  // simulation seed
 	Coverage  bool
 	Files     map[string]string // extra files copied next to the spec (e.g. trace.ndjson -> path)
 	DFS       bool              // use StateDeque (depth-first queue) for branching trace specs
@@ -39,29 +39,29 @@ type Result struct {
 	Generated   int64
 	Distinct    int64
 	Depth       int
-	Violated    string   // invariant / property name, "" if none
-	PostFailed  bool     // POSTCONDITION false
-	Error       string   // TLC error text (spec error, crash)
+	Violated    string // invariant / property name, "" if none
+	PostFailed  bool   // POSTCONDITION false
+	Error       string // TLC error text (spec error, crash)
 	TimedOut    bool
-	Cases       []json.RawMessage // lines printed as <<"CASE", "json">>
-	Printed     []string          // other PrintT lines
-	RejectedAt  int               // TRACE_REJECTED_AT_LINE n (0 = none)
-	Verdicts    map[int]Verdict   // <<"VERDICT", line, ok, how>>
+	Cases       []json.RawMessage       // lines printed as <<"CASE", "json">>
+	Printed     []string                // other PrintT lines
+	RejectedAt  int                     // TRACE_REJECTED_AT_LINE n (0 = none)
+	Verdicts    map[int]Verdict         // <<"VERDICT", line, ok, how>>
 	Expects     map[int]json.RawMessage // <<"EXPECT", line, "json">>
-	ZeroCover   []string          // actions with zero coverage (when Coverage)
+	ZeroCover   []string                // actions with zero coverage (when Coverage)
 	ActionCover map[string]int64
 	Output      string
 	WallS       float64
 }
 
 var (
-	reGen    = regexp.MustCompile(`(\d+) states generated, (\d+) distinct states found`)
-	reDepth  = regexp.MustCompile(`depth of the complete state graph search is (\d+)`)
-	reInv    = regexp.MustCompile(`Invariant (\S+) is violated`)
-	reProp   = regexp.MustCompile(`(?:Action property|Temporal property|property) (\S+) (?:is|was) violated`)
-	reCase   = regexp.MustCompile(`^<<"CASE", "(.*)">>$`)
-	reRej    = regexp.MustCompile(`TRACE_REJECTED_AT_LINE", (\d+)`)
-	reCover  = regexp.MustCompile(`^<(\w+) line \d+, col \d+ to line \d+, col \d+ of module (\w+)>: (\d+):(\d+)`)
+	reGen   = regexp.MustCompile(`(\d+) states generated, (\d+) distinct states found`)
+	reDepth = regexp.MustCompile(`depth of the complete state graph search is (\d+)`)
+	reInv   = regexp.MustCompile(`Invariant (\S+) is violated`)
+	reProp  = regexp.MustCompile(`(?:Action property|Temporal property|property) (\S+) (?:is|was) violated`)
+	reCase  = regexp.MustCompile(`^<<"CASE", "(.*)">>$`)
+	reRej   = regexp.MustCompile(`TRACE_REJECTED_AT_LINE", (\d+)`)
+	reCover = regexp.MustCompile(`^<(\w+) line \d+, col \d+ to line \d+, col \d+ of module (\w+)>: (\d+):(\d+)`)
 )
 
 // Verdict is one judged trace line.
@@ -89,6 +89,7 @@ func Exec(r Run) (*Result, error) {
 		return nil, err
 	}
 	defer os.RemoveAll(dir)
+	atExit(func() { _ = os.RemoveAll(dir) })
 	// copy the spec suite
 	ents, err := os.ReadDir(SpecDir())
 	if err != nil {
@@ -256,4 +257,14 @@ func Exec(r Run) (*Result, error) {
 		}
 	}
 	return res, nil
+}
+
+// AtExit is set by package chk (which cannot be imported from here without a cycle through trace): scratch
+// directories are removed however the process ends.
+var AtExit func(func())
+
+func atExit(f func()) {
+	if AtExit != nil {
+		AtExit(f)
+	}
 }
